@@ -179,6 +179,7 @@ func checkLayout(out []byte, desc string, n int) string {
 }
 
 func (x *c17Run) exec() {
+	core.Tick()
 	sc, res := x.sc, x.res
 	type want struct {
 		desc string
